@@ -6,9 +6,17 @@ VARIANTS = [
     SV("stub-operator-extra-arg", S, "KernStubArgList.operator",
        "self.append(arg.name, var_accesses)", "self.append(arg.name, var_accesses)\nself.append(arg.name + '_extra', var_accesses)", "fires:C21.R2"),
     V("stub-vector-one-too-few", S, "        for idx in range(1, argvect.vector_size+1):", "        for idx in range(1, argvect.vector_size):", "fires:C21.R2"),
-    SV("call-basis-no-evaluator", C, "KernCallArgList.basis",
-       "if 'gh_evaluator' in self._kern.eval_shapes:\n    for fs_name in self._kern.eval_targets:\n        fspace = self._kern.eval_targets[fs_name][0]\n        basis_name = function_space.get_basis_name(on_space=fspace)\n        sym = self.append_array_reference(basis_name, [':', ':', ':'], ScalarType.Intrinsic.REAL)\n        self.append(sym.name, var_accesses)",
-       "", "fires:C21.R2"),
+    V("call-basis-no-evaluator", C,
+      "                    basis_name = function_space.get_basis_name(\n                        on_space=fspace)\n                    sym = self.append_array_reference(\n                        basis_name, [\":\", \":\", \":\"],\n                        ScalarType.Intrinsic.REAL)\n                    self.append(sym.name, var_accesses)\n",
+      "                    continue\n", "fires:C21.R2"),
+    V("call-basis-quadratures-before-the-evaluator", C,
+      "        for shape in self._kern.eval_shapes:\n            if shape in self._kern.qr_rules:\n                rule = self._kern.qr_rules[shape]\n                basis_name = function_space.get_basis_name(\n                    qr_var=rule.psy_name)\n                sym = self.append_array_reference(basis_name,\n                                                  [\":\", \":\", \":\", \":\"],\n                                                  ScalarType.Intrinsic.REAL)\n                self.append(sym.name, var_accesses)\n            elif shape == \"gh_evaluator\":",
+      "        for rule in self._kern.qr_rules.values():\n            basis_name = function_space.get_basis_name(\n                qr_var=rule.psy_name)\n            sym = self.append_array_reference(basis_name,\n                                              [\":\", \":\", \":\", \":\"],\n                                              ScalarType.Intrinsic.REAL)\n            self.append(sym.name, var_accesses)\n        for shape in self._kern.eval_shapes:\n            if shape == \"gh_evaluator\":",
+      "fires:C21.R5"),
+    V("call-basis-class-tests-as-in-the-stub", C,
+      "            if shape in self._kern.qr_rules:\n                rule = self._kern.qr_rules[shape]\n                basis_name",
+      "            if shape in LFRicConstants().VALID_QUADRATURE_SHAPES:\n                rule = self._kern.qr_rules[shape]\n                basis_name",
+      "silent"),
     SV("call-psyir-missing", C, "KernCallArgList.cell_position",
        "self.append(cell_ref_name, var_accesses)", "self.append(cell_ref_name, var_accesses)\nself.append(cell_ref_name, var_accesses)", "fires:C21.R"),
     V("stub-overrides-generate", S, "class KernStubArgList(ArgOrdering):", "class KernStubArgList(ArgOrdering):\n    def generate(self, var_accesses=None):\n        self.cell_position(var_accesses)\n", "fires:C21.R1"),
